@@ -13,6 +13,7 @@
   free term algebra (Proofs/PairSetupSym.lean), not as an axiom.
 -/
 import Proofs.PairSetup
+import Proofs.PairSetupOrigin
 import Proofs.PairSetupSym
 import HapModel.Gen.SrpGroup
 namespace Hap.C01
@@ -161,6 +162,110 @@ theorem C01_exchange_single_use (cfg : Cfg) (ps : PS) (r r' : Req) (h : isO2 (st
   have := C01_m5_needs_m3 cfg { (step cfg ps r).1 with paired := [] } r' hn
   exact ⟨hv, this.1, this.2⟩
 
+/-! ### the gate tied to the SETUP CODE and to the DATA (Proofs/PairSetupOrigin.lean)
+
+  `C01_gate` speaks of "the proof expected by the verifier in the state".  The theorems below pin that
+  verifier down: along every history that starts on a driver without a verifier (a fresh
+  `AccessoryDriver`), the verifier in force is the one `setup_srp_verifier` built from the setup code
+  configured when the latest M1 was served and from that M1's own salt and secret (`Exch`); the expected
+  proof is therefore the closed-form SRP-6a proof for THAT code (`sessOf`, `C01_expected_proof_closed_form`). -/
+
+/-- **Gate, every history, in terms of the setup code.**  For every history of events (pair-setup
+    requests on any connection in any order, bystander activity, the owner unpairing the accessory or
+    changing the setup code) on a driver that starts without a verifier:
+    * every M4 that carries the accessory's proof answers an M3 whose `A ≢ 0 (mod N)` and whose proof is
+      the SRP-6a proof computed from the setup code that was configured when the current exchange was
+      opened, that exchange's salt and secret `b`, and this very `A`; the proof issued is that
+      session's `HAMK`;
+    * every M6 / recorded pairing happens in an exchange in which such an M3 was received (`demoA`, the `A`
+      of the latest one), and the accepted M5 is sealed under the session key of THAT demonstration:
+      `AcceptedM5 … (sessOf cfg x A).Kb`. -/
+theorem C01_gate_code (cfg : Cfg) (ps0 : PS) (h0 : ps0.verifier = none) (evs : List Ev) :
+    ∀ e ∈ xtrace cfg ps0 Ghost.init evs,
+      (isO1 e.out = true →
+        ∃ x A M, e.g.exch = some x ∧ reqA e.req = some A ∧ reqM e.req = some M ∧
+          M = (sessOf cfg x A).M ∧ bytesToNat A % cfg.G.N ≠ 0 ∧ e.out = .m4 (sessOf cfg x A).HAMK) ∧
+      ((isO2 e.out = true ∨ e.post.paired ≠ e.pre.paired) →
+        ∃ x A, e.g.exch = some x ∧ e.g.demoA = some A ∧ bytesToNat A % cfg.G.N ≠ 0 ∧
+          AcceptedM5 cfg (sessOf cfg x A).Kb e.pre e.req e.post) :=
+  gate_code_trace cfg ps0 Ghost.init (ginv_init cfg ps0 h0) evs
+
+/-- The ghost of `C01_gate_code` is a specification, not a restatement: an exchange is opened only by a
+    served M1 — with the code configured at that moment and that request's randomness — and lives until
+    the next served M1 or accepted M5; the demonstrating `A` is set only by a good M3 of the open exchange
+    and dies with the exchange. -/
+theorem C01_ghost_step (cfg : Cfg) (ps : PS) (g : Ghost) (r : Req) :
+    (∀ x, (gNext cfg ps g r).exch = some x →
+      (isM2 (step cfg ps r).2.1 = true ∧ x = ⟨ps.pincode, r.salt, bytesToNat r.bRand⟩) ∨
+      (isM2 (step cfg ps r).2.1 = false ∧ isO2 (step cfg ps r).2.1 = false ∧ g.exch = some x)) ∧
+    (∀ A, (gNext cfg ps g r).demoA = some A →
+      isM2 (step cfg ps r).2.1 = false ∧ isO2 (step cfg ps r).2.1 = false ∧
+      ((goodM3 cfg ps r = true ∧ reqA r = some A) ∨ (goodM3 cfg ps r = false ∧ g.demoA = some A))) :=
+  ghost_step cfg ps g r
+
+/-- the expected proof of an exchange in closed form (any hash): `x = H(salt ‖ H("Pair-Setup:" code))`,
+    `v = g^x`, `B = (k v + g^b) mod N`, `u = H(PAD A ‖ PAD B)`, `S = (A v^u)^b`, `K = H(S)`,
+    `M = H(H(N) xor H(g) ‖ H(I) ‖ salt ‖ A ‖ B ‖ K)`, `HAMK = H(A ‖ M ‖ K)` -/
+theorem C01_expected_proof_closed_form (cfg : Cfg) (x : Exch) (A : Bytes) :
+    let H := cfg.c.H
+    let G := cfg.G
+    let v := powMod G.g (privKey H x.salt SRP_USER x.code) G.N
+    let Bb := natToBytes ((multK H G * v + powMod G.g x.b G.N) % G.N)
+    let S := premaster G (bytesToNat A) v (scramble H G A Bb) x.b
+    (sessOf cfg x A).Kb = H (natToBytes S) ∧
+    (sessOf cfg x A).M = proofM H G SRP_USER x.salt A Bb (H (natToBytes S)) ∧
+    (sessOf cfg x A).HAMK = H (A ++ (sessOf cfg x A).M ++ H (natToBytes S)) ∧
+    (srvOf cfg x).Bb = Bb ∧ (srvOf cfg x).s = x.salt ∧ (srvOf cfg x).G = G :=
+  sessOf_closed cfg x A
+
+/-- **Pairing origin** (honest controller in the picture, any interleaving with other connections).
+    Whenever a pairing is recorded, the accepted M5 opens under the session key of the M3 that
+    demonstrated knowledge of the code in this very exchange, and the recorded identifier and long-term
+    key are the ones inside it, signed with that key over `HKDF(K) ‖ id ‖ key` (`AcceptedM5`).  In
+    particular, if that demonstration was made by the reference controller with secret `a` (RFC 5054
+    client, the exchange's code), the M5 opens under THAT controller's own session key `K = H(S)` — the key
+    of a session whose secret is known, by the SRP-6a assumption, only to the accessory and to a party
+    holding the code.  A man in the middle who relays the honest M3 but does not know the code cannot
+    seal an M5 of his own under that key (AEAD, DESIGN 2.2), so the key recorded is the honest
+    controller's; what this theorem contributes is the part that is about the CODE: which key the M5 must
+    open under, for every history. -/
+theorem C01_pairing_origin (cfg : Cfg) (ps0 : PS) (h0 : ps0.verifier = none) (evs : List Ev)
+    (hN : 0 < cfg.G.N) :
+    ∀ e ∈ xtrace cfg ps0 Ghost.init evs, e.post.paired ≠ e.pre.paired →
+      ∃ x A, e.g.exch = some x ∧ e.g.demoA = some A ∧
+        AcceptedM5 cfg (sessOf cfg x A).Kb e.pre e.req e.post ∧
+        ∀ a, A = (client cfg.c.H cfg.G SRP_USER x.code x.salt (srvOf cfg x).Bb a).Ab →
+          AcceptedM5 cfg (client cfg.c.H cfg.G SRP_USER x.code x.salt (srvOf cfg x).Bb a).K
+            e.pre e.req e.post := by
+  intro e he hch
+  obtain ⟨x, A, hx, hA, _, hacc⟩ := (C01_gate_code cfg ps0 h0 evs e he).2 (Or.inr hch)
+  refine ⟨x, A, hx, hA, hacc, ?_⟩
+  intro a ha
+  obtain ⟨_, _, hK, _, _⟩ := sess_agree cfg.c.H cfg.G SRP_USER x.code x.salt a x.b hN
+  have : (sessOf cfg x A).Kb
+      = (client cfg.c.H cfg.G SRP_USER x.code x.salt (srvOf cfg x).Bb a).K := by
+    rw [ha]; exact hK
+  rw [← this]; exact hacc
+
+/-- … and under an ideal AEAD (authenticity as a hypothesis record: whatever opens under `k` is a
+    sealing under `k`), the accepted ciphertext IS the sealing, under the demonstration's key, of a
+    sub-TLV carrying exactly the identifier and key that get recorded. -/
+theorem C01_pairing_origin_sealed (cfg : Cfg) (ps0 : PS) (h0 : ps0.verifier = none) (evs : List Ev)
+    (hauth : AeadAuth cfg.c) :
+    ∀ e ∈ xtrace cfg ps0 Ghost.init evs, e.post.paired ≠ e.pre.paired →
+      ∃ x A t sub d ident ltpk u, e.g.exch = some x ∧ e.g.demoA = some A ∧
+        Tlv.decode e.req.body [] = some t ∧
+        lookup t T_ENCRYPTED_DATA
+          = some (cfg.c.aeadEnc (cfg.c.hkdf (sessOf cfg x A).Kb P3_SALT P3_INFO) NONCE5 sub) ∧
+        Tlv.decode sub [] = some d ∧ lookup d T_USERNAME = some ident ∧ lookup d T_PUBLIC_KEY = some ltpk ∧
+        cfg.c.uuidOf ident = some u ∧ e.post.paired = [(u, ltpk, PERM_ADMIN)] := by
+  intro e he hch
+  obtain ⟨x, A, hx, hA, _, t, ed, sub, d, ident, ltpk, sig, u, hd, _, hed, hdec, hdd, hu, hk, _, _, huu, hpost⟩ :=
+    (C01_gate_code cfg ps0 h0 evs e he).2 (Or.inr hch)
+  refine ⟨x, A, t, sub, d, ident, ltpk, u, hx, hA, hd, ?_, hdd, hu, hk, huu, by rw [hpost]⟩
+  rw [hed, hauth _ _ _ _ hdec]
+
+
 /-- **The shipped code is forgeable** (closed-form schema, any hash, code, salt, `b > 0`, any `k`):
     after M1, the M3 with `A = k·N` and the proof computed from PUBLIC data only (salt and `B` from M2,
     `S = 0`) is answered with the server proof (O1 without the code). -/
@@ -272,5 +377,41 @@ example :
     (tr.map fun e => (isO1 e.out, isO2 e.out, e.demo, decide (e.post.paired ≠ e.pre.paired)))
       = [(false, false, false, false), (true, false, false, false), (false, true, true, true)] := by
   decide +kernel
+
+/-- `C01_gate_code` / `C01_pairing_origin` are not vacuous: on the toy instance the honest exchange has the
+    ghost exchange `(code [2], salt [3], b 6)` from M1 on, the demonstrating `A` is the controller's from
+    M3 on, and the M5 records the pairing; a man in the middle (any connection) who lets the honest M1/M3
+    through and then sends an M5 of his own sealed under the public key `K(S = 0)` is refused, and the
+    honest M5 still goes through afterwards -/
+example :
+    let cfg : Cfg := { G := { N := 23, g := 5, nLen := 8 }, c := toyCrypto }
+    let ps0 : PS := { pincode := [2], mac := [9], ltpk := [7], paired := [], verifier := none }
+    let srv := Srp.mk cfg.c.H cfg.G SRP_USER ps0.pincode [3] 6
+    let cl := client cfg.c.H cfg.G SRP_USER ps0.pincode [3] srv.Bb 4
+    let csig := [8] ++ (cfg.c.hkdf cl.K P4_SALT P4_INFO ++ [1] ++ [8])
+    let K0 := cfg.c.H []
+    let msig := [6] ++ (cfg.c.hkdf K0 P4_SALT P4_INFO ++ [5] ++ [6])
+    let evs : List Ev := [.req ⟨ctrlM1, [3], [6]⟩, .req ⟨ctrlM3 cl.Ab cl.M, [], []⟩, .connLost,
+      .req ⟨ctrlM5 cfg.c K0 (ctrlSub [5] [6] msig), [], []⟩,
+      .req ⟨ctrlM5 cfg.c cl.K (ctrlSub [1] [8] csig), [], []⟩]
+    ((xtrace cfg ps0 Ghost.init evs).map fun e =>
+        (e.g.exch, e.g.demoA, isO1 e.out, isO2 e.out, e.post.paired.length))
+      = [(none, none, false, false, 0),
+         (some ⟨[2], [3], 6⟩, none, true, false, 0),
+         (some ⟨[2], [3], 6⟩, some cl.Ab, false, false, 0),
+         (some ⟨[2], [3], 6⟩, some cl.Ab, false, true, 1)] := by
+  decide +kernel
+
+/-- the toy AEAD is authentic (`AeadAuth` is satisfiable) -/
+example : AeadAuth toyCrypto := by
+  intro k n ct p h
+  simp only [toyCrypto] at h ⊢
+  split at h
+  · next hk =>
+    simp only [Option.some.injEq] at h
+    have := List.take_append_drop (ct.length - k.length) ct
+    rw [hk, h] at this
+    exact this.symm
+  · exact absurd h (by simp)
 
 end Hap.C01
